@@ -158,6 +158,15 @@ class Canon(ast.NodeTransformer):
             n.body, n.orelse = n.orelse, n.body
         return n
 
+    # K12: `for x in E: yield x` is `yield from E`
+    def visit_For(self, n: ast.For) -> Any:
+        self.generic_visit(n)
+        if not n.orelse and len(n.body) == 1 and isinstance(n.body[0], ast.Expr) and isinstance(n.body[0].value, ast.Yield) and \
+                isinstance(n.target, ast.Name) and isinstance(n.body[0].value.value, ast.Name) and n.body[0].value.value.id == n.target.id:
+            self._hit('K12')
+            return ast.copy_location(ast.Expr(value=ast.copy_location(ast.YieldFrom(value=n.iter), n)), n)
+        return n
+
     # K6
     def visit_Assign(self, n: ast.Assign) -> Any:
         self.generic_visit(n)
